@@ -41,7 +41,8 @@ func coYield(L *LState) int {
 
 func coResume(L *LState) int {
 	th := L.CheckThread(1)
-	if L.G.CurrentThread == th {
+	if L.G.CurrentThread == th || th.Parent != nil {
+		// running, or normal (it has resumed another coroutine and waits for it)
 		msg := "can not resume a running thread"
 		if th.wrapped {
 			L.RaiseError(msg)
